@@ -192,6 +192,11 @@ def history(args):
         # then falls back to == (symbolic fork).  Sound here: every vector entry in this harness is symbolic.
         ctx.hash_hook = lambda x: 0
         prob.name, prob.description = 'problem-name', 'descr'
+        # names whose definition order differs from their lexicographic order (x_10 < x_2, stiffness < weight)
+        for p_, nm in zip(prob.parameters, ('x_2', 'x_10')):
+            p_['name'] = nm
+        for c_, nm in zip(prob.costs, ('weight', 'stiffness')):
+            c_['name'] = nm
         for i, p in enumerate(prob.parameters):
             p['bounds'] = [ctx.real('lb%d' % i), ctx.real('ub%d' % i)]
             p['extra'] = {'k': [1, 2.5, 'z']}
@@ -236,7 +241,7 @@ def history(args):
         ctx.output('ids', sorted(x.id for x in view.individuals))
         ctx.check('problem-name-and-description', view.name != 'problem-name' or view.description != 'descr')
         ctx.check('parameter-definitions', _differs([dict(p) for p in view.parameters], [dict(p) for p in prob.parameters]))
-        ctx.check('cost-definitions', _differs(sorted(view.costs, key=lambda c: c['name']), sorted(prob.costs, key=lambda c: c['name'])))
+        ctx.check('cost-definitions-in-definition-order', _differs([dict(c) for c in view.costs], [dict(c) for c in prob.costs]))
         ctx.check('one-row-per-id', sorted(x.id for x in view.individuals) != sorted(last))
         for got in view.individuals:
             exp = last.get(got.id)
